@@ -14,16 +14,16 @@ use serde_json::json;
 
 pub struct C15;
 
-const PIECES: [&str; 27] = [
+const PIECES: [&str; 34] = [
     "a", " ", "{", "}", "\\\\", "\\\"", "\\$", "\\n", "\\r", "\\x41", "é", "€", "😀", "\n", "\\x0a",
-    "\\x4A", "\\x7e", // valid
+    "\\x4A", "\\x7e", "\\x24", "\\x5c", "\\x22", "\\x7b", "\r\n", "\r", "\\x0d\\x0a", // valid
     "\\q", "\\x4", "\\xg1", "$", "\\",
     // not hex digits: non-ASCII characters whose code point ends in the byte of one
     "\\x4\u{441}", "\\x\u{430}1", "\\x4é", "\\x\u{ff11}0", "\\\u{144}",
 ];
-const N_VALID: usize = 17;
+const N_VALID: usize = 24;
 
-const IPIECES: [&str; 14] = ["a", "{", "}", "\\$", "\\\"", "é", "€", "😀", "\\n", " ", "\\x41", "\\\\", "\\r", "\n"];
+const IPIECES: [&str; 18] = ["a", "{", "}", "\\$", "\\\"", "é", "€", "😀", "\\n", " ", "\\x41", "\\\\", "\\r", "\n", "\\x24", "\\x5c", "\\x22", "\r\n"];
 const SLOTS: [&str; 18] = [
     "x", "\"s\"", "f(\"(\")", "o.k", "xs[0]", "{\"k\": \"v\"}.k", "$\"${x}\"", "x + \"é\"", "\"€\"", "f(\"{}\")",
     "$\"${o.k}\"", "\"\\$\" + x", "f(\"\\\"\")", "$\"<${xs[0]}>\"", "fi(x)",
